@@ -360,6 +360,17 @@ class Cont(Exception): pass
 class Unsupported(Inconclusive): pass
 class GoPanic(Exception):
     """a run-time panic of the interpreted Go program (index out of range, nil dereference)"""
+class GoTypeError(GoPanic):
+    """the interpreted program violates Go's static typing where this interpreter can see it (operands of a binary
+    operation or the two sides of an assignment have different types): the Go compiler would reject the file"""
+def same_type(a, b):
+    return a is b or (isinstance(a, IntT) and isinstance(b, IntT) and a.name == b.name) or (isinstance(a, BoolT) and isinstance(b, BoolT)) or (isinstance(a, StrT) and isinstance(b, StrT))
+def _tname(t): return getattr(t, 'name', None) or repr(t)
+def _assignable(val, t, what):
+    """Go assignability for the scalar cases that occur in generated code: an untyped constant fits; otherwise identical
+    types (a defined type and its underlying predeclared type are NOT assignable to one another)"""
+    if isinstance(val, V) and val.t is not None and t is not None and isinstance(under(t), (IntT, BoolT, StrT)) and isinstance(under(val.t), (IntT, BoolT, StrT)) and not same_type(val.t, t):
+        raise GoTypeError(f"compile error: cannot use a value of type {_tname(val.t)} as {_tname(t)} in {what}")
 NIL = V(None, None)
 def _chk(ok, i, n):
     if not ok: raise GoPanic(f"index out of range [{i}] with length {n}")
@@ -612,14 +623,19 @@ class Interp:
             if isinstance(o, Ptr): o = o.obj
             cur = o.f[l[2]]
             if isinstance(v, V) and isinstance(cur, V) and cur.t is not None and v.t is None: v = s.convert(cur.t, v)
+            if isinstance(cur, V): _assignable(v, cur.t, f"assignment to field {l[2]}")
             o.f[l[2]] = v; return
         if k == 'index':
             o = s.ev(l[1], envs, pkg); i = s.ev(l[2], envs, pkg).v
             if is_sym(i): i = pysym.ENGINE.concretize(i, "go index")
             if isinstance(o, Slice):
-                _chk(0 <= i < o.len, i, o.len); o.arr[o.off + i] = v
+                _chk(0 <= i < o.len, i, o.len)
+                if isinstance(o.arr[o.off + i], V): _assignable(v, o.arr[o.off + i].t, "assignment to a slice element")
+                o.arr[o.off + i] = v
             else:
-                _chk(0 <= i < len(o.els), i, len(o.els)); o.els[i] = v
+                _chk(0 <= i < len(o.els), i, len(o.els))
+                if isinstance(o.els[i], V): _assignable(v, o.els[i].t, "assignment to an array element")
+                o.els[i] = v
             return
         if k == 'un' and l[1] == '*':
             raise Unsupported("store through *p")
@@ -753,7 +769,9 @@ class Interp:
             if o == '<<': return V(l.t, (l.v << n) & ((1 << b) - 1))
             x = signed(l.v, b) if u.signed else l.v
             return V(l.t, (x >> n) & ((1 << b) - 1))
-        # typed/untyped unification
+        # typed/untyped unification; two typed operands must have identical types
+        if l.t is not None and r.t is not None and not same_type(l.t, r.t):
+            raise GoTypeError(f"compile error: invalid operation {o}: mismatched types {_tname(l.t)} and {_tname(r.t)}")
         t = l.t if l.t is not None else r.t
         if t is None:
             a, b = l.v, r.v
